@@ -28,9 +28,12 @@ def handleUndo (st : St) (op : String) (j : Json) : Option (D (St × Json)) :=
     let gt ← nat (← field j "gapTo")
     let sl ← slice (← field j "slice")
     let ins ← nat (← field j "insert")
-    -- [fit guard, bridge guard of the inner replace]
+    -- [fit guard, bridge guard of the inner replace, structural sufficient condition for the fit guard]
+    let clean := match d.slice f t with
+      | .ok old => gapClean old.content none (gf - f + old.openStart) (gt - f + old.openStart)
+      | .error _ => false
     return (st, ok (Json.arr #[Json.bool (gapFitsBack S d f t gf gt),
-      Json.bool (sidesCompatibleAround S d f t gf gt sl ins)]))
+      Json.bool (sidesCompatibleAround S d f t gf gt sl ins), Json.bool clean]))
   | "compatTrans" => some do
     let S ← getSchema st j
     return (st, ok (Json.bool (compatTransB S)))
